@@ -120,7 +120,6 @@ theorem commitChange_enabled {s : Sys} {i : Nat} {t : Tx} {v : View} {verdict : 
     | (apply Enabled.commitValid <;> simp_all [Tx.core, Cfg.cur]; done)
     | (apply Enabled.commitInvalid <;> simp_all [Tx.core, Cfg.cur]; done)
     | (apply Enabled.commitFailedRecover <;> simp_all [Tx.core, Cfg.cur]; done)
-    | (trace_state; sorry)
 
 theorem afterSend_acts (s : Sys) (c : Cfg) (values : Values) (ans : DevAns) (i : Nat)
     (okActs : List Act) (failActs : Fail → List Act) :
@@ -188,7 +187,6 @@ theorem commitRollback_enabled {s : Sys} {i : Nat} {t : Tx} {v : View} {p : Plan
     | (apply Enabled.rbCommitBeginResume <;> simp_all [Tx.core, Cfg.cur]; done)
     | (apply Enabled.rbCommit <;> simp_all [Tx.core, Cfg.cur]; done)
     | (apply Enabled.rbCommitRecover <;> simp_all [Tx.core, Cfg.cur]; done)
-    | (trace_state; sorry)
 
 theorem applyRollback_enabled {s : Sys} {i : Nat} {t : Tx} {v : View} {ans : DevAns} {p : Plan}
     (hv : v.c = s.cfg) (hp : t.phase = .rollback) (h : applyRollback s i t v ans = .plan p) :
